@@ -26,10 +26,10 @@ PROCS = 4         # GOMAXPROCS of the free-running parallel histories (set by th
 
 # harness runs: (tag, driver opt, monitor, {tier: number of generated executions})
 RUNS = [
-    ("m1", "kind=lifo", "LifoPTrace", {"quick": 2000, "thorough": 15000}),            # + the TLC schedules
-    ("lpar", "kind=lifo,par,procs=%d" % PROCS, "LifoPTrace", {"quick": 2000, "thorough": 20000}),
-    ("dq", "kind=deque", "DequePTrace", {"quick": 1500, "thorough": 15000}),
-    ("dpar", "kind=deque,par,procs=%d" % PROCS, "DequePTrace", {"quick": 2000, "thorough": 20000}),
+    ("m1", "kind=lifo", "LifoPTrace", {"quick": 3000, "thorough": 30000}),            # + the TLC schedules
+    ("lpar", "kind=lifo,par,procs=%d" % PROCS, "LifoPTrace", {"quick": 3000, "thorough": 40000}),
+    ("dq", "kind=deque", "DequePTrace", {"quick": 2000, "thorough": 30000}),
+    ("dpar", "kind=deque,par,procs=%d" % PROCS, "DequePTrace", {"quick": 3000, "thorough": 40000}),
 ]
 SPECDIRS = ["cqueue", "lib"]
 
@@ -147,12 +147,18 @@ def run(prop, tier, seed):
             (mine if p == prop else other).append(rec)
     # a protocol error inside a run voids that run's findings; a run that merely did not complete
     # ("Incomplete": some call never returned) keeps what was observed before
+    # "Overflow": the monitor gave up on one history (configuration set too large); that run is
+    # not judged for linearizability, which is reported, but it does not void the others
+    novf = sum(1 for o in other if o["name"] == "Overflow")
+    other = [o for o in other if o["name"] != "Overflow"]
     tainted = {(o["trace_file"], o["run"]) for o in other if o["name"] != "Incomplete"}
     mine = [m for m in mine if (m["trace_file"], m["run"]) not in tainted]
     if other and not mine:
         raise vlib.Inconclusive("harness/monitor protocol error (not a verdict): %s" % other[:3])
     if other:
         notes.append("%d executions ended without a verdict (Harness/Incomplete)" % len(other))
+    if novf:
+        notes.append("%d executions not judged for linearizability: monitor configuration set overflow" % novf)
     if st["crashed_shards"]:
         notes.append("%d harness shards crashed; their flushed events were still validated" % st["crashed_shards"])
 
